@@ -2,6 +2,7 @@ package main
 
 import (
 	"math/rand"
+	"strconv"
 
 	"github.com/restic/restic/internal/restic"
 	"github.com/restic/restic/internal/verifrt"
@@ -204,3 +205,45 @@ func VerifC52_FileSizeSubset() {
 	verifC52Check(packs, r, cnt, want)
 	verifrt.Reach("filesize")
 }
+
+// VerifC52_FilterExactlyOne: the pack filter that check --read-data-subset=n/t really applies (the
+// closure built by buildPacksFilter), for concrete t out of {1,2,3,7,255,256} and every n in 1..t,
+// on a pack whose first ID byte is arbitrary (plus a second pack): the pack is read by exactly one of
+// the t subsets - also when some subsets are empty.
+func VerifC52_FilterExactlyOne() {
+	verifrt.Stub("math/rand.NewSource", verifC52NewSource)
+	verifrt.Stub("(*math/rand.Rand).Perm", verifC52Perm)
+	packs, ids := verifC52Packs(verifrt.Param("packs", 2))
+	ts := []int{1, 2, 3, 256, 7, 255}[:verifrt.Param("tvalues", 4)]
+	k := verifrt.Int("t", 0, len(ts)-1)
+	t := ts[0]
+	for i := range ts { // fork: concrete t
+		if k == i {
+			t = ts[i]
+		}
+	}
+	count := make([]int, len(ids))
+	for n := 1; n <= t; n++ {
+		opts := CheckOptions{ReadDataSubset: strconv.Itoa(n) + "/" + strconv.Itoa(t)}
+		filter, err := buildPacksFilter(opts, verifC52Printer{}, false)
+		verifrt.Assert(err == nil && filter != nil, "no pack filter for a valid n/t")
+		sel := filter(packs)
+		verifrt.Assert(len(sel) <= len(packs), "more packs selected than exist")
+		for i, id := range ids {
+			if _, in := sel[id]; in {
+				count[i]++
+			}
+		}
+	}
+	for i := range ids {
+		verifrt.Assert(count[i] >= 1, "a pack is read by none of the subsets 1/t .. t/t")
+		verifrt.Assert(count[i] == 1, "a pack is read by more than one of the subsets 1/t .. t/t")
+	}
+	verifrt.Reach("exactly-one")
+}
+
+type verifC52Printer struct{ restic.Printer }
+
+func (verifC52Printer) P(string, ...any) {}
+func (verifC52Printer) V(string, ...any) {}
+func (verifC52Printer) E(string, ...any) {}
